@@ -1,5 +1,5 @@
 """Registry of units and per-property texts (used for MANIFEST.json and the evidence files)."""
-UNITS = ["frame", "codec", "codec16", "gui", "per", "rc4", "engine", "session", "nego", "cssp", "mcs", "sec", "ntlm", "engine2"]
+UNITS = ["frame", "codec", "codec16", "gui", "per", "rc4", "engine", "session", "nego", "cssp", "mcs", "sec", "ntlm", "connector", "engine2"]
 
 ENGINE_ASM = ("engine contract (prelude/model.rs): Component/Trame/Array/DynOption of src/model/data.rs are assumed to "
               "serialize as the in-order concatenation of their non-skipped fields and to read field by field "
@@ -8,7 +8,7 @@ IO_ASM = "std::io::Read/Write + byteorder contracts (prelude/base.rs): sized rea
 DUPLEX_ASM = "transport duplex axiom (prelude/base.rs axiom_duplex): reading does not change what was written and vice versa (rule R3 adds the marker bound)"
 
 # units under construction: never part of a property check
-DEV_UNITS = {"codec16", "rc4", "ntlm", "engine2"}
+DEV_UNITS = {"codec16", "rc4", "ntlm", "engine2", "connector"}
 
 PROPERTIES = {
     "C13": dict(
@@ -133,6 +133,29 @@ PROPERTIES.update({
         level_note="the step from wire bytes to the parsed update / rectangle structure goes through the " + ENGINE_ASM + " (closure contracts for the size / skip options of ts_fp_update and ts_bitmap_data are verified); " + SINK_ASM,
         assumptions=[ENGINE_ASM, SINK_ASM, MCS_ASM],
         design_ref="DESIGN.md §7 C10"),
+})
+
+COLL_ASM = "std HashMap / Read::take stand-ins (prelude/collections.rs) and the iterator rewrites of rule R6 (values(), iter().find(), take()) behave as documented"
+ASN1_ASM = "BER/DER of the MCS Connect-Initial / Connect-Response goes through the yasna crate and src/nla/asn1.rs (prelude/asn1.rs): external, assumed to keep the shape of the decoded structure or fail"
+ARR_ASM = "arrays that are read were built by Array::new from a prototype that consumes at least one byte (reading an Array::from_trame array panics, a zero-size prototype never terminates: the trusted Array contract has no such precondition; builders carry prototype clauses instead)"
+PROPERTIES.update({
+    "C05": dict(
+        scope="every reader on the connection-setup path is proved TOTAL on arbitrary server bytes: tpkt::Client::read, x224::Client::read, read_connection_confirm, all PER readers (per.rs), mcs read_attach_user_confirm / read_channel_join_confirm / "
+              "read_connect_response / Client::read, gcc::read_conference_create_response (block loop terminates: every iteration consumes the 4-byte header; block length below its header and missing mandatory blocks are errors), "
+              "Version::from / MessageType::from, sec::connect, license::client_connect / parse_payload (preamble size closure for all 65536 values). No overflow, no failing index / unwrap, every loop has a measure; buffer sizes are bounded by 16-bit fields",
+        technique="contract-based deductive verification: Verus (z3) on function bodies extracted from /repo on every run",
+        level_note="trusted: " + ENGINE_ASM + "; " + ARR_ASM + "; " + IO_ASM + "; " + COLL_ASM + "; " + ASN1_ASM,
+        assumptions=[ENGINE_ASM, ARR_ASM, IO_ASM, COLL_ASM, ASN1_ASM, EQ_ASM],
+        design_ref="DESIGN.md §7 C05"),
+    "C04": dict(
+        scope="builders proved byte-exact or length-exact against layouts transcribed from the protocol documents: TPKT header (length = payload + 4), X.224 data / connection request (LI 14, RDP_NEG_REQ length 8), T.125 send-data header with PER length, "
+              "erect-domain / attach-user / channel-join / disconnect-ultimatum, GCC conference-create-request wrapper (both PER length determinants) and TS_UD_HEADER (length includes the 4 header bytes), client core data (212 bytes, clientName exactly 32 bytes "
+              "and null-terminated for EVERY name incl. non-BMP), security / network data, TS_INFO_PACKET (cb* counts exclude the terminators, every string null-terminated, for all names up to 512 chars), share control / share data headers, "
+              "confirm-active (lengthCombinedCapabilities, numberCapabilities, twelve capability sets with their documented sizes), synchronize / control / font-list / input PDUs, PER write_length",
+        technique="contract-based deductive verification: Verus (z3); serialization is the spec function ser(view) of the engine contract",
+        level_note="the 'strict independent parser' of the statement is represented by these equalities with transcribed layouts; trusted: " + ENGINE_ASM + " (serialization = in-order concatenation of the non-skipped fields: being verified for the real engine code in unit engine2); NTLM / CredSSP tokens: DER is external, NTLM field offsets are in unit ntlm",
+        assumptions=[ENGINE_ASM, "UTF-16LE of std::str::encode_utf16 (prelude/unicode.rs: only length facts are used)", DER_ASM],
+        design_ref="DESIGN.md §7 C04"),
 })
 
 NOT_APPLICABLE = {
